@@ -77,12 +77,19 @@ def optimize_prec_assignment(model: MPS,
                     raise ValueError("Unsupported quantizer type")
 
                 best_cost = copy.deepcopy(base_cost)
-                best_cost_w_theta_alpha_array = copy.deepcopy(w_theta_alpha_array)
                 config_cost = _compute_cost(model, layer, w_theta_alpha_array, cost_fn_map, lname, node)
                 assert config_cost == base_cost, "The cost of the layer is not consistent with the original configuration"
 
+                # the search works on the count vector sorted by increasing precision; _compute_cost
+                # and _reassign_precisions want it in the quantizer's own order of precisions
                 sorted_indexes = torch.argsort(layer.w_mps_quantizer.precision)
+                inverse_indexes = torch.argsort(sorted_indexes)
                 sorted_precisions = [layer.w_mps_quantizer.precision[i] for i in sorted_indexes]
+
+                def _unsorted(sorted_array):
+                    return [sorted_array[i] for i in inverse_indexes]
+
+                best_cost_w_theta_alpha_array = [copy.deepcopy(w_theta_alpha_array)[i] for i in sorted_indexes]
 
                 # Case 1: assign a channel at a time to a higher precision. Save the configuration if the cost decreases
                 w_theta_alpha_array_tmp = [copy.deepcopy(w_theta_alpha_array)[i] for i in sorted_indexes]
@@ -96,17 +103,17 @@ def optimize_prec_assignment(model: MPS,
                         while w_theta_alpha_array_tmp[i] > 0.5 / layer.w_mps_quantizer.theta_alpha.shape[1]:
                             w_theta_alpha_array_tmp[i] -= (1. / layer.w_mps_quantizer.theta_alpha.shape[1])
                             w_theta_alpha_array_tmp[j] += (1. / layer.w_mps_quantizer.theta_alpha.shape[1])
-                            cost_tmp = _compute_cost(model, layer, w_theta_alpha_array_tmp, cost_fn_map, lname, node)
+                            cost_tmp = _compute_cost(model, layer, _unsorted(w_theta_alpha_array_tmp), cost_fn_map, lname, node)
                             if cost_tmp < best_cost:
                                 best_cost = cost_tmp
-                                best_cost_w_theta_alpha_array = copy.deepcopy(w_theta_alpha_array_tmp) # TODO: check sorting!!!
+                                best_cost_w_theta_alpha_array = copy.deepcopy(w_theta_alpha_array_tmp)
                                 print("* Layer '{}' cost decreased from {} to {} with the following channels counts for each precision:"
                                       "\n\tprecisions: {}"
                                       "\n\toriginal:   {}"
                                       "\n\tnew:        {}".format(
                                           lname, base_cost, best_cost,
                                           torch.stack(sorted_precisions).tolist(),
-                                          torch.mul(w_theta_alpha_array, layer.w_mps_quantizer.alpha.shape[1]).tolist(),
+                                          torch.mul(w_theta_alpha_array[sorted_indexes], layer.w_mps_quantizer.alpha.shape[1]).tolist(),
                                           torch.mul(torch.stack(best_cost_w_theta_alpha_array), layer.w_mps_quantizer.alpha.shape[1]).tolist()))
 
 
@@ -122,7 +129,7 @@ def optimize_prec_assignment(model: MPS,
                         while w_theta_alpha_array_tmp[i] > 0.5 / layer.w_mps_quantizer.theta_alpha.shape[1]:
                             w_theta_alpha_array_tmp[i] -= (1. / layer.w_mps_quantizer.theta_alpha.shape[1])
                             w_theta_alpha_array_tmp[j] += (1. / layer.w_mps_quantizer.theta_alpha.shape[1])
-                            cost_tmp = _compute_cost(model, layer, w_theta_alpha_array_tmp, cost_fn_map, lname, node)
+                            cost_tmp = _compute_cost(model, layer, _unsorted(w_theta_alpha_array_tmp), cost_fn_map, lname, node)
                             if cost_tmp < best_cost:
                                 best_cost = cost_tmp
                                 best_cost_w_theta_alpha_array = copy.deepcopy(w_theta_alpha_array_tmp)
@@ -132,13 +139,13 @@ def optimize_prec_assignment(model: MPS,
                                       "\n\tnew:        {}".format(
                                           lname, base_cost, best_cost,
                                           torch.stack(sorted_precisions).tolist(),
-                                          torch.mul(w_theta_alpha_array, layer.w_mps_quantizer.alpha.shape[1]).tolist(),
+                                          torch.mul(w_theta_alpha_array[sorted_indexes], layer.w_mps_quantizer.alpha.shape[1]).tolist(),
                                           torch.mul(torch.stack(best_cost_w_theta_alpha_array), layer.w_mps_quantizer.alpha.shape[1]).tolist()))
 
                 best_model_cost += best_cost
 
                 # Sort the best configuration according to the original order of the precisions
-                best_theta_alpha_array = torch.tensor([best_cost_w_theta_alpha_array[i] for i in sorted_indexes])
+                best_theta_alpha_array = torch.tensor(_unsorted(best_cost_w_theta_alpha_array))
                 best_theta_alpha_array = torch.mul(best_theta_alpha_array, layer.w_mps_quantizer.theta_alpha.shape[1])
 
                 # Update the layer with the best configuration.
